@@ -107,6 +107,7 @@ class Fw:
         self.kf = json.load(open(os.path.join(VERIF, 'known_findings.json')))
         self.notes = []
         self.extra_cov = {}
+        self._crash_reported = set()
 
     def cleanup(self):
         shutil.rmtree(self.scratch, ignore_errors=True)
@@ -227,6 +228,10 @@ class Fw:
             cmd += ['--cvc5', '--slice-formula']
             env = dict(os.environ, PATH=os.path.join(FW, 'shim') + ':' + os.environ.get('PATH', ''))
         rc, out, err, wall, rss, to = run_limited(cmd, timeout, mem_gb, env=env, cancel=cancel)
+        if not to and 'VERIFICATION' not in out.replace('VERIFICATION ERROR', '') and ('ut of memory' in out + err or 'bad_alloc' in out + err) and 'VRT_STOP' not in cdefs:
+            # exploring behind a failed null check can exhaust memory: retry once with the path cut after such a failure
+            rc, out, err, wall2, rss, to = run_limited(cmd + ['-D', 'VRT_STOP'], timeout, mem_gb, env=env, cancel=cancel)
+            wall += wall2
         res = dict(label=label or root, root=root, model=model.name, wall=round(wall, 2), rss_kb=rss, failed=[], unwind=unwind,
                    unwindset=unwindset, kind=kind, symbolic=symbolic, backend=backend)
         if to:
@@ -414,6 +419,27 @@ class Fw:
             if 'ASSUME-VIOLATED' in oa and 'ASSUME-VIOLATED' in ob:
                 continue
             n += 1
+            if rb_ not in (0, 1, 77, -999):
+                # the real library crashed (signal / sanitizer report) on this input: that is a violation of "never crashes" shown
+                # against the real code, whatever the model says; the input vector is the replay
+                inputs = [int(x) for l in oa + ob if l.startswith('INPUTS') for x in l.split()[1:]][:64]
+                key = (root, 'crash')
+                if key not in self._crash_reported:
+                    self._crash_reported.add(key)
+                    msg = 'the real library returns normally (no crash / sanitizer report)'
+                    rep = dict(how='real library crashed in a differential run (rc=%s): %s' % (rb_, eb.strip().split('\n')[-1][:200]), checkfails=[], stderr_tail=eb)
+                    self.report_violation(harness, root, defines, msg, args[1:], rep)
+                continue
+            realfails = [l[len('CHECKFAIL: '):] for l in ob if l.startswith('CHECKFAIL: ')]
+            if realfails and rb_ == 1:
+                # a harness property fails on the REAL library for this concrete input: a violation shown against the real code
+                # (found by the sampled differential run, not by the solver; reported all the same)
+                for msg in realfails[:2]:
+                    key = (root, msg)
+                    if key not in self._crash_reported:
+                        self._crash_reported.add(key)
+                        rep = dict(how='check fails on the real library in a differential run', checkfails=realfails, stderr_tail=eb)
+                        self.report_violation(harness, root, defines, msg, args[1:], rep)
             if not same:
                 self.diff_disagreements.append(dict(root=root, args=args, model=oa[-6:], real=ob[-6:], model_rc=ra, real_rc=rb_, real_err=eb, model_err=ea))
         with self.lock:
@@ -601,6 +627,7 @@ def std_rules(string=None, vector=None, table=33, setchar=12, extra=()):
     r.append((r'St3setIcSt4lessIcEE', setchar))
     r.append((r'__vstd_fmt_u?int', 22))
     r.append((r'__vstd_stoi|__vstd_stod|__vrt_stod_classify', 24))
+    r.append((r'^log10\.|^pow\.', 27))
     if table:
         # the constant tables are keyed by strings or enumerations; other maps are small (VSTD_MAP_CAP)
         r.append((r'^_ZNK?St3mapI(St6string|N9libcellml)', table))
